@@ -1352,7 +1352,7 @@ class Gen:
                 # (operator new with a non-constant size is std::vector / allocator storage: same treatment, no cookie)
                 # operator new[]: allocate a TYPED array object (cookie + elements) of constant size so that CBMC keeps
                 # element/field sensitivity; a symbolic-size or byte-typed array holding pointers explodes in the solver
-                hint = self.new_array_hint(fg, d)
+                hint = self.new_array_hint(fg, d, callee_name == '_Znwm')
                 if hint is not None and callee_name == '_Znwm' and hint[0] != 0: hint = None
                 if hint is not None:
                     cookie, et = hint
@@ -1618,7 +1618,7 @@ class Gen:
             fdef = self.mod.funcs.get(fn)
             if fdef and not fn.startswith('llvm.') and self.sig_compat(fdef, fty): cands.append(fn)
         return cands
-    def new_array_hint(self, fg, d):
+    def new_array_hint(self, fg, d, plain_new=False):
         """(cookie_bytes, element_type) for the result %d of operator new[]: bitcast of the pointer itself (no cookie) or of
         the pointer advanced by an 8-byte array cookie"""
         body = fg.f['body']
@@ -1667,7 +1667,7 @@ class Gen:
                 if t2 is not None: return (8, t2)
         if t is not None: return (0, t)
         # no cookie and the storage is used as i64 elements (std::vector<uint64_t>)
-        if re.search(r'= bitcast i8\* ' + re.escape(d) + r' to i64\*', '\n'.join(body)): return (0, ('int', 64))
+        if plain_new and re.search(r'= bitcast i8\* ' + re.escape(d) + r' to i64\*', '\n'.join(body)): return (0, ('int', 64))
         # char arrays are used as i8* directly
         return (0, ('int', 8))
     def new_type_hint(self, fg, d, n):
